@@ -208,12 +208,6 @@ theorem entriesOf_total (v : JV) (ks : List JV) (hk : keysOf v = some ks) : ∃ 
   | num _ => simp [keysOf] at hk
   | str _ => simp [keysOf] at hk
 
-/-- does a result agree with a value-level function's answer (`none` = a jq error, nothing emitted) -/
-def Agrees (r : Res) (o : Option JV) : Prop :=
-  match o with
-  | some w => r.outs.map (·.v) = [w] ∧ r.stop = .done
-  | none => r.outs = [] ∧ ∃ e, r.stop = .err e
-
 /-- **`toEntries` IS the shipped `to_entries`, on every value**: evaluated by `Spec.eval` from the
     regenerated definition, with any fuel from 40 on, in any environment that does not shadow it. -/
 theorem eval_to_entries (m : Nat) (hm : 40 ≤ m) (env : Env) (v : JV) (id : Ident)
@@ -233,5 +227,519 @@ theorem eval_to_entries (m : Nat) (hm : 40 ≤ m) (env : Env) (v : JV) (id : Ide
   | none =>
     rw [eval_toEntriesBody_error (n + 35) (by omega) _ v id rfl hk]
     simp [toEntries, hk, Agrees, Res.fail]
+
+/-! ## `from_entries`, `with_entries(.)` -/
+
+/-- a run without path tracking that yields the single value `o` / fails when `o = none` -/
+def Runs (r : Res) (o : Option JV) : Prop :=
+  match o with
+  | some w => ∃ i, r = .one { v := w, id := i }
+  | none => ∃ e, r = .fail e
+
+/-- `.name` -/
+def fieldQ (nm : String) : Query := (Query.term [] (Term.mk (TermCore.index (Index.name (B nm))) []))
+
+theorem eval_fieldQ (m : Nat) (hm : 6 ≤ m) (env : Env) (nm : String) (e : JV) (id : Ident) :
+    Runs (eval m cfgGo env (fieldQ nm) { v := e, id := id }) (field e nm) := by
+  obtain ⟨n, rfl⟩ : ∃ n, m = n + 6 := ⟨m - 6, by omega⟩
+  simp only [fieldQ, eval_term, Env.defs, List.foldl_nil, evalTerm_succ, evalTermRev, List.reverse_nil, evalCore_succ,
+    evalIndex_succ, one_bind_mk, navStep, field]
+  cases funcIndex2 e (.str (B nm)) with
+  | ok w => exact ⟨_, rfl⟩
+  | error err => exact ⟨err, rfl⟩
+
+/-- `l // r` when both sides run to a single value or fail -/
+theorem eval_alt_runs (n : Nat) (env : Env) (l r : Query) (s : St) (ol : Option JV) (or' : Unit → Option JV)
+    (hl : Runs (eval n cfgGo env l s) ol) (hr : Runs (eval n cfgGo env r s) (or' ())) :
+    Runs (eval (n + 1) cfgGo env (.binop [] .alt l r) s) (alt ol or') := by
+  rw [eval_alt]
+  simp only [Env.defs, List.foldl_nil]
+  cases ol with
+  | none =>
+    obtain ⟨e, he⟩ := hl
+    simp only [he]
+    exact ⟨e, rfl⟩
+  | some a =>
+    obtain ⟨i, hi⟩ := hl
+    simp only [hi, Res.one, List.filter, alt]
+    by_cases hf : isFalsy a = true
+    · simp only [hf, Bool.not_true, List.isEmpty_nil, if_true]
+      exact hr
+    · have : isFalsy a = false := by simpa using hf
+      simp only [this, Bool.not_false, List.isEmpty_cons, Bool.false_eq_true, if_false]
+      exact ⟨i, rfl⟩
+
+/-- `.key // .Key // .name // .Name` -/
+def keyQ : Query := (Query.binop [] Op.alt (fieldQ "key") (Query.binop [] Op.alt (fieldQ "Key") (Query.binop [] Op.alt (fieldQ "name") (fieldQ "Name"))))
+
+theorem eval_keyQ (m : Nat) (hm : 9 ≤ m) (env : Env) (e : JV) (id : Ident) :
+    Runs (eval m cfgGo env keyQ { v := e, id := id }) (entryKey e) := by
+  obtain ⟨n, rfl⟩ : ∃ n, m = n + 9 := ⟨m - 9, by omega⟩
+  exact eval_alt_runs (n + 8) env _ _ _ _ _ (eval_fieldQ _ (by omega) env "key" e id)
+    (eval_alt_runs (n + 7) env _ _ _ _ _ (eval_fieldQ _ (by omega) env "Key" e id)
+      (eval_alt_runs (n + 6) env _ _ _ _ _ (eval_fieldQ _ (by omega) env "name" e id)
+        (eval_fieldQ _ (by omega) env "Name" e id)))
+
+
+theorem find_has : cfgGo.builtins.find "has" 1 = none := by rfl
+
+/-- `"…"` (a string literal) -/
+def strQ (b : Bytes) : Query := (Query.term [] (Term.mk (TermCore.str (Str.lit b)) []))
+
+theorem evalCall_has (m : Nat) (hm : 6 ≤ m) (env : Env) (b : Bytes) (v : JV) (id : Ident)
+    (h : lookupCall "has" 1 env.bs = .none) :
+    evalCall m cfgGo env "has" [strQ b] { v := v, id := id } =
+      nativeRes { v := v, id := id } "has" (some (funcHas v (.str b))) [v, .str b] := by
+  obtain ⟨n, rfl⟩ : ∃ n, m = n + 6 := ⟨m - 6, by omega⟩
+  have hsw : "has".startsWith "$" = false := by decide +kernel
+  have hn : nativeCall (n + 5) cfgGo env "has" [strQ b] { v := v, id := id } =
+      evalArgsK (fun a ctx => eval (n + 5) cfgGo env a { v := v, id := id, ctx := ctx }) [strQ b] none [] fun vals ctx =>
+        nativeRes { v := v, id := id, ctx := ctx } "has" (callNative "has" v vals) (v :: vals) := rfl
+  simp only [evalCall_succ, List.length_cons, List.length_nil, Nat.zero_add, h, hsw, Bool.false_eq_true, if_false,
+    find_has, hn]
+  simp only [evalArgsK, strQ, eval_term, Env.defs, List.foldl_nil, evalTerm_succ, evalTermRev, List.reverse_nil, evalCore_succ,
+    evalStr_succ, computed, one_bind_mk]
+  rfl
+
+
+theorem funcHas_bool (v x w : JV) (h : funcHas v x = .ok w) : ∃ b, w = .bool b := by
+  unfold funcHas at h
+  split at h
+  · split at h
+    · simp only [pure, Except.pure, Except.ok.injEq] at h; exact ⟨_, h.symm⟩
+    · cases h
+  · simp only [pure, Except.pure, Except.ok.injEq] at h; exact ⟨_, h.symm⟩
+  · simp only [pure, Except.pure, Except.ok.injEq] at h; exact ⟨_, h.symm⟩
+  · cases h
+
+theorem funcHas_error (v x : JV) (err : Err) (h : funcHas v x = .error err) : err = errFunc1 "has" v x := by
+  unfold funcHas at h
+  split at h
+  · split at h
+    · cases h
+    · simp only [throw, throwThe, MonadExceptOf.throw, Except.error.injEq] at h; exact h.symm
+  · cases h
+  · cases h
+  · simp only [throw, throwThe, MonadExceptOf.throw, Except.error.injEq] at h; exact h.symm
+
+/-- `if has("value") then .value else .Value end` -/
+def valQ : Query := (Query.term [] (Term.mk (TermCore.if_ (Query.term [] (Term.mk (TermCore.func "has" [strQ (B "value")]) [])) (fieldQ "value") [] (some (fieldQ "Value"))) []))
+
+theorem eval_valQ (m : Nat) (hm : 12 ≤ m) (env : Env) (e : JV) (id : Ident) (h : lookupCall "has" 1 env.bs = .none) :
+    Runs (eval m cfgGo env valQ { v := e, id := id }) (entryValue e) := by
+  obtain ⟨n, rfl⟩ : ∃ n, m = n + 12 := ⟨m - 12, by omega⟩
+  simp only [valQ, eval_term, Env.defs, List.foldl_nil, evalTerm_succ, evalTermRev, List.reverse_nil, evalCore_succ, withCtx,
+    evalCall_has (n + 6) (by omega) env _ e id h, entryValue]
+  cases hh : funcHas e (.str (B "value")) with
+  | error err =>
+    rw [funcHas_error _ _ _ hh]
+    exact ⟨_, rfl⟩
+  | ok w =>
+    obtain ⟨b, rfl⟩ := funcHas_bool _ _ _ hh
+    cases b with
+    | true =>
+      simp only [nativeRes, resultOf, one_bind_mk, isFalsy, Bool.not_false, if_true]
+      exact eval_fieldQ _ (by omega) env "value" e id
+    | false =>
+      simp only [nativeRes, resultOf, one_bind_mk, isFalsy, Bool.not_true, Bool.false_eq_true, if_false]
+      exact eval_fieldQ _ (by omega) env "Value" e id
+
+/-- `{ (.key // .Key // .name // .Name): if has("value") then .value else .Value end }` -/
+def entryObjQ : Query := (Query.term [] (Term.mk (TermCore.object [(ObjKV.mk (ObjKey.query keyQ) (some valQ))]) []))
+
+/-- what that object construction makes of one entry -/
+def entryObj (e : JV) : Option JV := (fromEntry e).map fun kv => .obj [kv]
+
+theorem eval_entryObjQ (m : Nat) (hm : 20 ≤ m) (env : Env) (e : JV) (id : Ident) (h : lookupCall "has" 1 env.bs = .none) :
+    Runs (eval m cfgGo env entryObjQ { v := e, id := id }) (entryObj e) := by
+  obtain ⟨n, rfl⟩ : ∃ n, m = n + 20 := ⟨m - 20, by omega⟩
+  have hk := eval_keyQ (n + 16) (by omega) env e id
+  simp only [entryObjQ, eval_term, Env.defs, List.foldl_nil, evalTerm_succ, evalTermRev, List.reverse_nil, evalCore_succ,
+    evalObject_succ, objKeyRes, objValRes, entryObj, fromEntry]
+  cases hek : entryKey e with
+  | none =>
+    rw [hek] at hk
+    obtain ⟨err, he⟩ := hk
+    simp only [he, fail_bind]
+    exact ⟨err, rfl⟩
+  | some kx =>
+    rw [hek] at hk
+    obtain ⟨i, hi⟩ := hk
+    have hv := eval_valQ (n + 16) (by omega) env e id h
+    simp only [hi, one_bind_mk]
+    cases hev : entryValue e with
+    | none =>
+      rw [hev] at hv
+      obtain ⟨err, he⟩ := hv
+      simp only [he, fail_bind]
+      cases kx <;> exact ⟨err, rfl⟩
+    | some vx =>
+      rw [hev] at hv
+      obtain ⟨j, hj⟩ := hv
+      simp only [hj, one_bind_mk, List.nil_append, List.reverse_cons, List.reverse_nil, List.find?, List.filterMap]
+      cases kx with
+      | str k => exact ⟨_, rfl⟩
+      | null => exact ⟨_, rfl⟩
+      | bool _ => exact ⟨_, rfl⟩
+      | num _ => exact ⟨_, rfl⟩
+      | arr _ => exact ⟨_, rfl⟩
+      | obj _ => exact ⟨_, rfl⟩
+
+
+/-! ### `map(f)` -/
+
+theorem bindList_runs (f : St → Res) (φ : JV → Option JV) : ∀ (xs : List St),
+    (∀ x ∈ xs, x.pend = false ∧ Runs (f x) (φ x.v)) →
+    match mapOpt φ (xs.map (·.v)) with
+    | some ys => ∃ sts, Res.bindList f .done xs = ⟨sts, .done⟩ ∧ sts.map (·.v) = ys
+    | none => ∃ sts e, Res.bindList f .done xs = ⟨sts, .err e⟩
+  | [], _ => ⟨[], rfl, rfl⟩
+  | x :: xs, h => by
+    have hx := h x (by simp)
+    have ih := bindList_runs f φ xs (fun y hy => h y (by simp [hy]))
+    rw [bindList_cons_nopend f .done x xs hx.1]
+    simp only [List.map_cons, mapOpt]
+    cases hφ : φ x.v with
+    | none =>
+      have := hx.2; rw [hφ] at this
+      obtain ⟨e, he⟩ := this
+      simp only [he]
+      exact ⟨[], e, rfl⟩
+    | some y =>
+      have := hx.2; rw [hφ] at this
+      obtain ⟨i, hi⟩ := this
+      simp only [hi, Res.one]
+      cases hm : mapOpt φ (xs.map (·.v)) with
+      | none =>
+        rw [hm] at ih
+        obtain ⟨sts, e, he⟩ := ih
+        exact ⟨{ v := y, id := i } :: sts, e, by simp [he]⟩
+      | some ys =>
+        rw [hm] at ih
+        obtain ⟨sts, he, hv⟩ := ih
+        exact ⟨{ v := y, id := i } :: sts, by simp [he], by simp [hv]⟩
+
+/-- the body of `map(f)` as the real parser dumps it: `[.[] | f]` -/
+def mapBody : Query := (Query.term [] (Term.mk (TermCore.array (some (Query.binop [] Op.pipe (Query.term [] (Term.mk TermCore.identity [Suffix.iter])) (Query.term [] (Term.mk (TermCore.func "f" []) []))))) []))
+
+theorem shipped_map : Generated.Builtins.go_map_a01 = .mk "map" ["f"] mapBody := rfl
+
+theorem find_map : cfgGo.builtins.find "map" 1 = some (.mk "map" ["f"] mapBody) := by
+  rw [← shipped_map]; rfl
+
+/-- `map(f)` at value level, for an `f` with one output per element (or an error) -/
+def mapVal (φ : JV → Option JV) (v : JV) : Option JV :=
+  match valuesOf v with
+  | none => none
+  | some es => (mapOpt φ es).map .arr
+
+theorem eval_mapBody (n : Nat) (cenv : Env) (fq : Query) (bs : List Binding) (v : JV) (id : Ident)
+    (φ : JV → Option JV) (hf : ∀ e i, Runs (eval n cfgGo cenv fq { v := e, id := i }) (φ e)) :
+    Runs (eval (n + 8) cfgGo (.mk (.clo "f" fq cenv :: bs)) mapBody { v := v, id := id }) (mapVal φ v) := by
+  simp only [mapBody, eval_term, Env.defs, List.foldl_nil, evalTerm_succ, evalTermRev, List.reverse_nil, evalCore_succ,
+    eval_binop, List.reverse_cons, List.nil_append, one_bind_mk, mapVal]
+  cases hv : valuesOf v with
+  | none =>
+    have : iterate { v := v, id := id } = .fail (.builtin "iterator" [v]) := by
+      cases v <;> simp_all [valuesOf, iterate, iterItems]
+    simp only [this, fail_bind, Res.fail]
+    exact ⟨_, rfl⟩
+  | some es =>
+    obtain ⟨sts, h1, h2, h3⟩ := iterate_vals v id es hv
+    have hcall : ∀ x ∈ sts, x.pend = false ∧
+        Runs (evalCall (n + 1) cfgGo (.mk (.clo "f" fq cenv :: bs)) "f" [] x) (φ x.v) := by
+      intro x hx
+      obtain ⟨hp, hc⟩ := h3 x hx
+      refine ⟨hp, ?_⟩
+      have hx' : x = { v := x.v, id := x.id } := by
+        cases x; simp_all
+      have := hf x.v x.id
+      simp only [evalCall_succ, List.length_nil, Env.bs, lookupCall, beq_self_eq_true, Bool.and_self, if_true]
+      rw [hx']
+      exact this
+    have hb := bindList_runs _ φ sts hcall
+    rw [h2] at hb
+    simp only [h1, Res.bind]
+    cases hm : mapOpt φ es with
+    | none =>
+      rw [hm] at hb
+      obtain ⟨sts', e, he⟩ := hb
+      simp only [he, Option.map_none]
+      exact ⟨e, rfl⟩
+    | some ys =>
+      rw [hm] at hb
+      obtain ⟨sts', he, hv'⟩ := hb
+      simp only [he, Option.map_some, computed, hv']
+      exact ⟨_, rfl⟩
+
+
+/-- a call of the jq-defined builtin `map(f)` (not shadowed): its body with `f` bound to the closure -/
+theorem evalCall_map (n : Nat) (env : Env) (fq : Query) (s : St) (h : lookupCall "map" 1 env.bs = .none) :
+    evalCall (n + 2) cfgGo env "map" [fq] s =
+      eval n cfgGo (.mk [.clo "f" fq env, .fn "map" ["f"] mapBody true]) mapBody s := by
+  have hsw : "map".startsWith "$" = false := by decide +kernel
+  have hf : "f".startsWith "$" = false := by decide +kernel
+  simp only [evalCall_succ, List.length_cons, List.length_nil, Nat.zero_add, h, hsw, Bool.false_eq_true, if_false, find_map,
+    callDef_succ, FuncDef.name, FuncDef.params, FuncDef.body, List.zip_cons_cons, List.zip_nil_right, List.foldl_cons,
+    List.foldl_nil, List.filter_cons, List.filter_nil, hf, bindValsK]
+  rfl
+
+/-! ### `add // {}` over one-member objects -/
+
+theorem find_add : cfgGo.builtins.find "add" 0 = none := by rfl
+
+theorem evalCall_add (m : Nat) (hm : 1 ≤ m) (env : Env) (s : St) (h : lookupCall "add" 0 env.bs = .none) :
+    evalCall m cfgGo env "add" [] s = nativeRes s "add" (some (funcAdd s.v)) [s.v] := by
+  obtain ⟨n, rfl⟩ : ∃ n, m = n + 1 := ⟨m - 1, by omega⟩
+  have hsw : "add".startsWith "$" = false := by decide +kernel
+  simp only [evalCall_succ, List.length_nil, h, hsw, Bool.false_eq_true, if_false, find_add]
+  rfl
+
+/-- one step of `addAll` -/
+def addStep (acc x : JV) : NRes :=
+  match x with
+  | .null => pure acc
+  | x => opAdd acc x
+
+theorem addAll_eq (xs : List JV) : addAll xs = xs.foldlM addStep .null := rfl
+
+theorem addAll_pairs_go : ∀ (kvs acc : List (Bytes × JV)),
+    (kvs.map fun kv => JV.obj [kv]).foldlM addStep (JV.obj acc) =
+      .ok (.obj (kvs.foldl (fun a kv => kvInsert kv.1 kv.2 a) acc))
+  | [], acc => rfl
+  | kv :: kvs, acc => by
+    have h0 : addStep (.obj acc) (.obj [kv]) = .ok (.obj (kvInsert kv.1 kv.2 acc)) := rfl
+    simp only [List.map_cons, List.foldlM_cons, h0, bind, Except.bind, List.foldl_cons]
+    exact addAll_pairs_go kvs _
+
+/-- `add` of the one-member objects of `kvs`: `null` for none, else the successive assignment -/
+theorem funcAdd_pairs (kvs : List (Bytes × JV)) :
+    funcAdd (.arr (kvs.map fun kv => JV.obj [kv])) = .ok (if kvs.isEmpty then .null else addPairs kvs) := by
+  cases kvs with
+  | nil => rfl
+  | cons kv kvs =>
+    have h0 : addStep .null (.obj [kv]) = .ok (.obj [kv]) := rfl
+    simp only [funcAdd, valuesOf, addAll_eq, List.map_cons, List.foldlM_cons, h0, bind, Except.bind,
+      List.isEmpty_cons, Bool.false_eq_true, if_false, addPairs, List.foldl_cons]
+    rw [addAll_pairs_go kvs [kv]]
+    cases kv; simp [kvInsert]
+
+
+/-! ### `from_entries` -/
+
+/-- the body of `from_entries` as the real parser dumps it -/
+def fromEntriesBody : Query := (Query.binop [] Op.pipe (Query.term [] (Term.mk (TermCore.func "map" [entryObjQ]) [])) (Query.binop [] Op.alt (Query.term [] (Term.mk (TermCore.func "add" []) [])) (Query.term [] (Term.mk (TermCore.object []) []))))
+
+theorem shipped_from_entries : Generated.Builtins.go_from_uentries_a00 = .mk "from_entries" [] fromEntriesBody := rfl
+
+theorem find_from_entries : cfgGo.builtins.find "from_entries" 0 = some (.mk "from_entries" [] fromEntriesBody) := by
+  rw [← shipped_from_entries]; rfl
+
+theorem mapOpt_entryObj : ∀ es : List JV,
+    mapOpt entryObj es = (fromEntryList es).map fun kvs => kvs.map fun kv => JV.obj [kv]
+  | [] => rfl
+  | e :: es => by
+    simp only [mapOpt, fromEntryList, mapOpt_entryObj es, entryObj]
+    cases fromEntry e <;> cases fromEntryList es <;> rfl
+
+theorem eval_fromEntriesBody (m : Nat) (hm : 40 ≤ m) (env : Env) (v : JV) (id : Ident)
+    (hmap : lookupCall "map" 1 env.bs = .none) (hhas : lookupCall "has" 1 env.bs = .none)
+    (hadd : lookupCall "add" 0 env.bs = .none) :
+    Runs (eval m cfgGo env fromEntriesBody { v := v, id := id }) (fromEntries v) := by
+  obtain ⟨n, rfl⟩ : ∃ n, m = n + 40 := ⟨m - 40, by omega⟩
+  have hm' : Runs (eval (n + 34) cfgGo (.mk [.clo "f" entryObjQ env, .fn "map" ["f"] mapBody true]) mapBody { v := v, id := id })
+      (mapVal entryObj v) :=
+    eval_mapBody (n + 26) env entryObjQ [.fn "map" ["f"] mapBody true] v id entryObj
+      (fun e i => eval_entryObjQ _ (by omega) env e i hhas)
+  simp only [fromEntriesBody, eval_binop, Env.defs, List.foldl_nil, eval_term, evalTerm_succ, evalTermRev, List.reverse_nil,
+    evalCore_succ, evalCall_map (n + 34) env _ _ hmap]
+  simp only [mapVal, mapOpt_entryObj] at hm'
+  simp only [fromEntries]
+  cases hv : valuesOf v with
+  | none =>
+    simp only [hv] at hm'
+    obtain ⟨e, he⟩ := hm'
+    simp only [he, fail_bind]
+    exact ⟨e, rfl⟩
+  | some es =>
+    simp only [hv] at hm' ⊢
+    cases hl : fromEntryList es with
+    | none =>
+      simp only [hl, Option.map_none] at hm'
+      obtain ⟨e, he⟩ := hm'
+      simp only [he, fail_bind, Option.map_none]
+      exact ⟨e, rfl⟩
+    | some kvs =>
+      simp only [hl, Option.map_some] at hm'
+      obtain ⟨i, hi⟩ := hm'
+      have hadd' : evalCall (n + 35) cfgGo env "add" [] { v := .arr (kvs.map fun kv => JV.obj [kv]), id := i } =
+          .one { v := if kvs.isEmpty then .null else addPairs kvs,
+                 id := resultIdent [.arr (kvs.map fun kv => JV.obj [kv])] (if kvs.isEmpty then .null else addPairs kvs) } := by
+        rw [evalCall_add (n + 35) (by omega) env _ hadd]
+        simp only [funcAdd_pairs, nativeRes, resultOf]
+      simp only [hi, one_bind_mk, hadd', Option.map_some]
+      cases kvs with
+      | nil =>
+        simp only [Res.one, List.isEmpty_nil, if_true, isFalsy, Bool.not_true, List.filter, evalObject_succ]
+        exact ⟨_, rfl⟩
+      | cons kv kvs =>
+        simp only [Res.one, List.isEmpty_cons, Bool.false_eq_true, if_false, addPairs, isFalsy, Bool.not_false, List.filter]
+        exact ⟨_, rfl⟩
+
+
+theorem runs_bind {r : Res} {o : Option JV} {f : St → Res} {g : JV → Option JV} (hr : Runs r o)
+    (hf : ∀ w i, Runs (f { v := w, id := i }) (g w)) : Runs (r.bind f) (o.bind g) := by
+  cases o with
+  | none =>
+    obtain ⟨e, he⟩ := hr
+    rw [he, fail_bind]
+    exact ⟨e, rfl⟩
+  | some w =>
+    obtain ⟨i, hi⟩ := hr
+    rw [hi, one_bind_mk]
+    exact hf w i
+
+theorem runs_agrees {r : Res} {o : Option JV} (h : Runs r o) : Agrees r o := by
+  cases o with
+  | none => obtain ⟨e, he⟩ := h; rw [he]; exact ⟨rfl, e, rfl⟩
+  | some w => obtain ⟨i, hi⟩ := h; rw [hi]; exact ⟨rfl, rfl⟩
+
+/-- a call of `to_entries` (not shadowed) -/
+theorem runs_call_to_entries (m : Nat) (hm : 37 ≤ m) (env : Env) (v : JV) (id : Ident)
+    (h : lookupCall "to_entries" 0 env.bs = .none) :
+    Runs (evalCall m cfgGo env "to_entries" [] { v := v, id := id }) (toEntries v) := by
+  obtain ⟨n, rfl⟩ : ∃ n, m = n + 37 := ⟨m - 37, by omega⟩
+  rw [evalCall_to_entries (n + 35) env _ h]
+  cases hk : keysOf v with
+  | some ks =>
+    obtain ⟨es, he⟩ := entriesOf_total v ks hk
+    rw [eval_toEntriesBody (n + 35) (by omega) _ v id ks es rfl hk he]
+    simp only [toEntries, hk, he, Option.map_some]
+    exact ⟨_, rfl⟩
+  | none =>
+    rw [eval_toEntriesBody_error (n + 35) (by omega) _ v id rfl hk]
+    simp only [toEntries, hk]
+    exact ⟨_, rfl⟩
+
+/-- a call of the jq-defined builtin `from_entries` (not shadowed) runs its body in the builtin environment -/
+theorem evalCall_from_entries (n : Nat) (env : Env) (s : St) (h : lookupCall "from_entries" 0 env.bs = .none) :
+    evalCall (n + 2) cfgGo env "from_entries" [] s =
+      eval n cfgGo (.mk [.fn "from_entries" [] fromEntriesBody true]) fromEntriesBody s := by
+  have hsw : "from_entries".startsWith "$" = false := by decide +kernel
+  simp only [evalCall_succ, List.length_nil, h, hsw, Bool.false_eq_true, if_false, find_from_entries, callDef_succ,
+    FuncDef.name, FuncDef.params, FuncDef.body, List.zip_nil_right, List.filter_nil, List.foldl_nil, bindValsK]
+  rfl
+
+theorem runs_call_from_entries (m : Nat) (hm : 42 ≤ m) (env : Env) (v : JV) (id : Ident)
+    (h : lookupCall "from_entries" 0 env.bs = .none) :
+    Runs (evalCall m cfgGo env "from_entries" [] { v := v, id := id }) (fromEntries v) := by
+  obtain ⟨n, rfl⟩ : ∃ n, m = n + 42 := ⟨m - 42, by omega⟩
+  rw [evalCall_from_entries (n + 40) env _ h]
+  exact eval_fromEntriesBody (n + 40) (by omega) _ v id rfl rfl rfl
+
+/-- **`fromEntries` IS the shipped `from_entries`, on every value** (errors included): `Spec.eval` of the
+    regenerated definition, any fuel from 45 on, any environment that does not shadow it. -/
+theorem eval_from_entries (m : Nat) (hm : 45 ≤ m) (env : Env) (v : JV) (id : Ident)
+    (h : lookupCall "from_entries" 0 env.bs = .none) :
+    Agrees (eval m cfgGo env qFromEntries { v := v, id := id }) (fromEntries v) := by
+  obtain ⟨n, rfl⟩ : ∃ n, m = n + 45 := ⟨m - 45, by omega⟩
+  simp only [qFromEntries, eval_term, Env.defs, List.foldl_nil, evalTerm_succ, evalTermRev, List.reverse_nil, evalCore_succ]
+  exact runs_agrees (runs_call_from_entries (n + 42) (by omega) env v id h)
+
+/-- **`to_entries | from_entries` through the shipped definitions is `toEntries` then `fromEntries`** -/
+theorem eval_to_from (m : Nat) (hm : 46 ≤ m) (env : Env) (v : JV) (id : Ident)
+    (h1 : lookupCall "to_entries" 0 env.bs = .none) (h2 : lookupCall "from_entries" 0 env.bs = .none) :
+    Agrees (eval m cfgGo env qToFrom { v := v, id := id }) ((toEntries v).bind fromEntries) := by
+  obtain ⟨n, rfl⟩ : ∃ n, m = n + 46 := ⟨m - 46, by omega⟩
+  simp only [qToFrom, eval_binop, Env.defs, List.foldl_nil, eval_term, evalTerm_succ, evalTermRev, List.reverse_nil, evalCore_succ]
+  exact runs_agrees (runs_bind (runs_call_to_entries (n + 42) (by omega) env v id h1)
+    (fun w i => runs_call_from_entries (n + 42) (by omega) env w i h2))
+
+
+/-! ### `with_entries(.)` -/
+
+/-- `f` (a call of the filter parameter) -/
+def callF : Query := (Query.term [] (Term.mk (TermCore.func "f" []) []))
+
+/-- the body of `with_entries(f)` as the real parser dumps it: `to_entries | map(f) | from_entries` -/
+def withEntriesBody : Query := (Query.binop [] Op.pipe (Query.term [] (Term.mk (TermCore.func "to_entries" []) [])) (Query.binop [] Op.pipe (Query.term [] (Term.mk (TermCore.func "map" [callF]) [])) (Query.term [] (Term.mk (TermCore.func "from_entries" []) []))))
+
+theorem shipped_with_entries : Generated.Builtins.go_with_uentries_a01 = .mk "with_entries" ["f"] withEntriesBody := rfl
+
+theorem find_with_entries : cfgGo.builtins.find "with_entries" 1 = some (.mk "with_entries" ["f"] withEntriesBody) := by
+  rw [← shipped_with_entries]; rfl
+
+theorem evalCall_with_entries (n : Nat) (env : Env) (fq : Query) (s : St) (h : lookupCall "with_entries" 1 env.bs = .none) :
+    evalCall (n + 2) cfgGo env "with_entries" [fq] s =
+      eval n cfgGo (.mk [.clo "f" fq env, .fn "with_entries" ["f"] withEntriesBody true]) withEntriesBody s := by
+  have hsw : "with_entries".startsWith "$" = false := by decide +kernel
+  have hf : "f".startsWith "$" = false := by decide +kernel
+  simp only [evalCall_succ, List.length_cons, List.length_nil, Nat.zero_add, h, hsw, Bool.false_eq_true, if_false,
+    find_with_entries, callDef_succ, FuncDef.name, FuncDef.params, FuncDef.body, List.zip_cons_cons, List.zip_nil_right,
+    List.foldl_cons, List.foldl_nil, List.filter_cons, List.filter_nil, hf, bindValsK]
+  rfl
+
+theorem mapVal_some (w : JV) : (mapVal some w).bind fromEntries =
+    match w with
+    | .arr es => (mapOpt some es).bind fun es' => fromEntries (.arr es')
+    | .obj kvs => fromEntries (.arr (kvs.map (·.2)))
+    | _ => none := by
+  cases w with
+  | arr es => simp only [mapVal, valuesOf]; cases mapOpt some es <;> rfl
+  | obj kvs => simp only [mapVal, valuesOf, mapOpt_some]; rfl
+  | null => rfl
+  | bool _ => rfl
+  | num _ => rfl
+  | str _ => rfl
+
+theorem toEntries_arr (v w : JV) (h : toEntries v = some w) : ∃ es, w = .arr es := by
+  simp only [toEntries] at h
+  split at h
+  · cases h
+  · simp only [Option.map_eq_some_iff] at h
+    obtain ⟨es, _, rfl⟩ := h
+    exact ⟨es, rfl⟩
+
+/-- **`withEntries some` IS the shipped `with_entries(.)`, on every value** -/
+theorem eval_with_entries_id (m : Nat) (hm : 60 ≤ m) (env : Env) (v : JV) (id : Ident)
+    (h : lookupCall "with_entries" 1 env.bs = .none) :
+    Agrees (eval m cfgGo env qWithEntriesId { v := v, id := id }) (withEntries some v) := by
+  obtain ⟨n, rfl⟩ : ∃ n, m = n + 60 := ⟨m - 60, by omega⟩
+  simp only [qWithEntriesId, eval_term, Env.defs, List.foldl_nil, evalTerm_succ, evalTermRev, List.reverse_nil, evalCore_succ,
+    evalCall_with_entries (n + 55) env _ _ h]
+  simp only [withEntriesBody, eval_binop, Env.defs, List.foldl_nil, eval_term, evalTerm_succ, evalTermRev, List.reverse_nil,
+    evalCore_succ]
+  have hmap : ∀ w i, Runs (evalCall (n + 50) cfgGo
+      (.mk [.clo "f" (Query.term [] (Term.mk TermCore.identity [])) env, .fn "with_entries" ["f"] withEntriesBody true])
+      "map" [callF] { v := w, id := i }) (mapVal some w) := by
+    intro w i
+    rw [evalCall_map (n + 48) _ _ _ rfl]
+    apply eval_mapBody (n + 40)
+    intro e j
+    simp only [callF, eval_term, Env.defs, List.foldl_nil, evalTerm_succ, evalTermRev, List.reverse_nil, evalCore_succ,
+      evalCall_succ, List.length_nil, Env.bs, lookupCall, beq_self_eq_true, Bool.and_self, if_true]
+    exact ⟨j, rfl⟩
+  have h1 := runs_call_to_entries (n + 51) (by omega)
+      (.mk [.clo "f" (Query.term [] (Term.mk TermCore.identity [])) env, .fn "with_entries" ["f"] withEntriesBody true]) v id rfl
+  have h2 : ∀ w i, Runs ((evalCall (n + 50) cfgGo
+      (.mk [.clo "f" (Query.term [] (Term.mk TermCore.identity [])) env, .fn "with_entries" ["f"] withEntriesBody true])
+      "map" [callF] { v := w, id := i }).bind fun y => evalCall (n + 50) cfgGo
+      (.mk [.clo "f" (Query.term [] (Term.mk TermCore.identity [])) env, .fn "with_entries" ["f"] withEntriesBody true])
+      "from_entries" [] y) ((mapVal some w).bind fromEntries) :=
+    fun w i => runs_bind (g := fromEntries) (hmap w i) (fun w' i' => runs_call_from_entries (n + 50) (by omega) _ w' i' rfl)
+  have hall := runs_bind (f := fun x => (evalCall (n + 50) cfgGo
+      (.mk [.clo "f" (Query.term [] (Term.mk TermCore.identity [])) env, .fn "with_entries" ["f"] withEntriesBody true])
+      "map" [callF] x).bind fun y => evalCall (n + 50) cfgGo
+      (.mk [.clo "f" (Query.term [] (Term.mk TermCore.identity [])) env, .fn "with_entries" ["f"] withEntriesBody true])
+      "from_entries" [] y) (g := fun w => (mapVal some w).bind fromEntries) h1 h2
+  have hval : ((toEntries v).bind fun w => (mapVal some w).bind fromEntries) = withEntries some v := by
+    simp only [withEntries]
+    cases ht : toEntries v with
+    | none => rfl
+    | some w =>
+      obtain ⟨es, rfl⟩ := toEntries_arr v w ht
+      simp only [Option.bind_some, mapVal_some]
+  rw [← hval]
+  exact runs_agrees hall
 
 end Gojq.Pairs
